@@ -169,6 +169,18 @@ def triuAgree (e : List String) : List (Nat × Nat) :=
   let ls := e.zipIdx
   ls.flatMap fun x => (ls.filter fun y => decide (x.2 ≤ y.2) && x.1 == y.1).map fun y => (x.2, y.2)
 
+/-! ## the public functions: externs and the checked cast of frame counts -/
+
+/-- `validate_hier_intervals(h)` (EXTERN, not translated): bound to the hand model's `validateHier` (`IndexError` for no
+    levels, the `ValueError`s of `segment.validate_structure`; its warnings are not modelled) -/
+def validate_hier_intervals (h : Hier) : Py Unit := Hierarchy.validateHier h
+
+/-- an `int(...)` frame count handed to a kernel whose parameter is a natural number: a negative value is outside the kernel's
+    modelled domain and is the error `other`; `Props/C17_Gen` proves this unreachable (window ≥ frame_size > 0 there) -/
+def natOfIntOpt : Option Int → Py (Option Nat)
+  | none => .ok none
+  | some k => if k < 0 then .error .other else .ok (some k.toNat)
+
 /-! ## protocol glue for the generated handler -/
 
 def asMat? (v : Val) : Option Mat := Hierarchy.asMat? v
